@@ -327,6 +327,48 @@ func c06(c *h.Ctx) {
 		c.Case("handwritten/onMetaData", h.Hex(msg), true)
 	}
 
+	// 2b. containers with MANY elements (the times / filepositions lists of FLV metadata have thousands of entries; the
+	// count field is a U32). Objects and ECMA arrays: both directions against the specification. Strict arrays with
+	// elements are finding K1 against the specification's layout; in the layout the library itself writes, the bytes it
+	// produced must come back as all the elements, consumed to the last byte, and what follows the array in an enclosing
+	// object must still be read as what it is ("never silently skipped or mis-sized").
+	largeNs := []int{4097, 5000}
+	if c.Thorough() {
+		largeNs = []int{4095, 4096, 4097, 5000, 9000, 70000}
+	}
+	for _, n := range largeNs {
+		kv := make([]interface{}, 0, 2*n)
+		for i := 0; i < n; i++ {
+			kv = append(kv, fmt.Sprintf("k%d", i), num(uint64(0x4000000000000000)+uint64(i)))
+		}
+		for _, kind := range []byte{'o', 'a'} {
+			big := container(kind, uint32(n), kv...)
+			c06SpecToLib(c, fmt.Sprintf("large/%c/%d", kind, n), big)
+			c06LibToSpec(c, fmt.Sprintf("large/%c/%d", kind, n), big)
+		}
+		sa := container('t', uint32(n), kv...)
+		outer := container('o', 0, "first", str("x"), "list", sa, "after", num(0x3ff0000000000000), "last", str("y"))
+		for _, nd := range []*anode{sa, outer} {
+			bs, cl := libMarshal(nd.build())
+			id := fmt.Sprintf("strict array of %d elements in the library's layout (top level: %v), encoded by the library, decoded by the library", n, nd == sa)
+			if !c.Hold(cl == "ok" && bytes.Equal(bs, nd.wire(nil)), "marshal_ok", id, cl, "ok, the hand-written bytes") {
+				continue
+			}
+			d := libDecode(bs)
+			got := d.class
+			ok := false
+			if d.class == "ok" {
+				again, _ := libMarshal(d.val)
+				ok = amfStr(d.val) == nd.text() && d.consumed == len(bs) && d.val.Size() == len(bs) && bytes.Equal(again, bs)
+				got = fmt.Sprintf("consumed=%d size=%d re-encoded=%d bytes value=%s", d.consumed, d.val.Size(), len(again), h.Trunc(amfStr(d.val), 200))
+			}
+			c.Hold(ok, "lib_layout.large_strict_array", id, got, fmt.Sprintf("consumed=%d size=%d re-encoded=%d bytes value=%s", len(bs), len(bs), len(bs), h.Trunc(nd.text(), 200)))
+			hx := h.Hex(bs)
+			c.Eq("spec_to_lib.dec", "amf0.dec "+h.Trunc(hx, 300), h.Trunc(d.decLine(bs), 1500), h.Trunc(c.O.Call("amf0.dec", hx), 1500))
+			c.Case(fmt.Sprintf("large/t/%d", n), id, true)
+		}
+	}
+
 	// 3. FFmpeg / Flash / yamdi-style metadata trees, both directions.
 	for i, n := range metadataTrees(r) {
 		c06SpecToLib(c, fmt.Sprintf("metadata/%d", i), n)
